@@ -1178,8 +1178,8 @@ class Ex:
             node = ast.parse(src).body[0]
             cfr = Frame(VFunc("user", "<comprehension>", cls=fr.func.cls, module=fr.func.module), None)
             vf = VFunc("user", "spec:" + fname, node=node, closure=cfr, module=None)
-            kind = seq.kind if seq.kind != "list" else "list:%s" % seq.ety
-            vf.rec = dict(args=[kind if seq.kind != "list" else kind], ret=("list", ety))
+            kind = seq.kind if seq.kind != "list" else ("list", seq.ety)
+            vf.rec = dict(args=[kind], ret=("list", ety))
             cfr.vars["__elt"] = elt_fn
             cfr.vars["__empty"] = VSeq("list", ety, z3.Empty(sort_of(("list", ety))))
             cfr.vars[fname] = vf
@@ -1439,6 +1439,14 @@ class Ex:
         if mod is None:
             raise Unsupported("class %s unknown (attribute %s)" % (clsname, name))
         hit = mod.mro_lookup(clsname, name)
+        if hit is None and name.startswith("_") and "__" in name[1:]:
+            # a private method is defined under its unmangled name in the class body
+            owner, rest = name[1:].split("__", 1)
+            hit = mod.mro_lookup(clsname, "__" + rest)
+            if hit is not None and hit[2].name.lstrip("_") != owner:
+                hit = None
+            if hit is not None:
+                name = "__" + rest
         if hit is None:
             # __getattr__ fallback
             ga = mod.mro_lookup(clsname, "__getattr__") if inst is not None else None
